@@ -238,6 +238,27 @@ def sig_pin_toctou(lines, d):
     return d["kind"] == "oracle" and d["line"].startswith("pinprune") and d["line"].endswith("prune:checked") and "TOCTOU" in (d.get("why") or "")
 
 
+def sig_hash_on_dirty_tree_iv(lines, d):
+    # K5: before the first commit of a tree with InitialVersion > 1, a hash / proof query on the dirty
+    # working tree memoised hashes computed for version 1
+    iv = None
+    dirty = False
+    queried = False
+    for l in lines[:d["idx"] + 1]:
+        a = l.split()
+        if a[0] == "cfg":
+            for tok in a[1:]:
+                if tok.startswith("iv=") and tok != "iv=-":
+                    iv = int(tok[3:])
+        elif a[0] in ("set", "rm"):
+            dirty = True
+        elif a[0] in ("hash", "proof", "memproof", "nonmemproof") and dirty and iv is not None and iv > 1:
+            queried = True
+        elif a[0] == "save":
+            break
+    return queried and ("hash" in (d["impl"] or "") or d["line"].split()[0] in ("save", "hash", "whash", "lhash", "imm"))
+
+
 def sig_empty_value_proof(lines, d):
     # K6: ics23 rejects an empty value: the proof (or a neighbour leaf of a non-membership proof) carries value `x`
     return d["kind"] == "oracle" and (" x " in (d["impl"] or "") and "proof" in d["line"])
@@ -245,6 +266,7 @@ def sig_empty_value_proof(lines, d):
 
 SIGNATURES = {
     "empty-value-proof": sig_empty_value_proof,
+    "hash-on-dirty-tree-iv": sig_hash_on_dirty_tree_iv,
     "pin-toctou": sig_pin_toctou,
     "legacy-converted-root-clash": sig_legacy_converted_root_clash,
     "v2-recommit-sharded": sig_v2_recommit_sharded,
